@@ -136,3 +136,47 @@ Proof.
   - intros j k Hjk. apply (chain_crash NoLoss NoLoss_refl NoLoss_trans); [|exact Hjk].
     apply chainb_sound; [|exact H2]. apply steps_nodup. cbn. constructor.
 Qed.
+
+(* ---------- the restart clause ---------- *)
+Lemma line_eqb_eq a b : line_eqb a b = true -> a = b.
+Proof.
+  destruct a as [n|i n], b as [m|j m]; cbn [line_eqb]; intros H; try discriminate.
+  - apply Nat.eqb_eq in H. congruence.
+  - apply andb_true_iff in H as [H1 H2]. apply Z.eqb_eq in H1. apply Nat.eqb_eq in H2. congruence.
+Qed.
+
+Lemma content_eqb_eq a : forall b, content_eqb a b = true -> a = b.
+Proof.
+  induction a as [|x t IH]; intros [|y u] H; cbn [content_eqb] in H; try discriminate; [reflexivity|].
+  apply andb_true_iff in H as [H1 H2]. apply line_eqb_eq in H1. apply IH in H2. congruence.
+Qed.
+
+(* what must hold after a new search was created and run in the directory a kill left behind *)
+Definition RestartSpec (finished newfin : list Z) (before after : files) : Prop :=
+  (forall f c, is_csv f = true -> fget after f = Some c -> FileSpec (finished ++ newfin) c)
+  /\ NoLoss before after
+  /\ (forall i, In i newfin -> exists c, fget after fresults = Some c /\ In i (ids c))
+  /\ (forall f c, is_csv f = true -> In (f, c) before ->
+        exists g, g <> fresults /\ is_csv g = true /\ fget after g = Some c).
+
+Theorem ok_restart_sound finished newfin before after :
+  ok_restart finished newfin before after = true -> RestartSpec finished newfin before after.
+Proof.
+  unfold ok_restart, clause_restart. intros H.
+  destruct (keys_nodup after && ok_survivors (finished ++ newfin) after) eqn:E1; cbn [negb] in H; [|discriminate].
+  destruct (no_loss before after) eqn:E2; cbn [negb] in H; [|discriminate].
+  destruct (new_in_results newfin after) eqn:E3; cbn [negb] in H; [|discriminate].
+  destruct (kept_aside before after) eqn:E4; cbn [negb] in H; [|discriminate].
+  apply andb_true_iff in E1 as [Hk Hs]. assert (Hnd : NoDupKeys after) by (apply znodup_NoDup; exact Hk).
+  split; [|split; [|split]].
+  - apply ok_survivors_sound. exact Hs.
+  - apply no_loss_sound; assumption.
+  - intros i Hi. unfold new_in_results in E3. destruct (fget after fresults) as [c|].
+    + exists c. split; [reflexivity|]. rewrite forallb_forall in E3. apply zmem_In. apply E3. exact Hi.
+    + destruct newfin; [contradiction|discriminate].
+  - intros f c Hf Hin. unfold kept_aside in E4. rewrite forallb_forall in E4. specialize (E4 (f, c) Hin).
+    cbn [fst snd] in E4. rewrite Hf in E4. apply existsb_exists in E4 as [[g cg] [Hg E]]. cbn [fst snd] in E.
+    apply andb_true_iff in E as [E Hc]. apply andb_true_iff in E as [Hne Hcsv]. apply content_eqb_eq in Hc. subst cg.
+    exists g. split; [|split; [exact Hcsv|apply In_fget; assumption]].
+    apply negb_true_iff in Hne. apply Z.eqb_neq in Hne. exact Hne.
+Qed.
